@@ -74,14 +74,14 @@ theorem C20_workday_beyond_scan_counterexample :
 the EARLIEST matching local instant `nl` strictly after the local start `base + off`, where
 `base = max(now, pending target, last served instant)`; it stores the UTC target `nl − off`, and
 that target is strictly after the current UTC second, the previous target and the last served instant. -/
-theorem C20_tz (a : Alarm) (e : Env) (hs : a.sod < D) (hr : InRange (a.base e) a.offset)
+theorem C20_tz (a : Alarm) (e : Env) (hs : a.sod < D) (hr : InRange (a.base e) a.offset) (hf : FarOk a e)
     (hok : (activeTimer a e).2 = true) :
     ∃ nl, Earliest (Matches a e.cal) (addOff (a.base e) a.offset) nl ∧
       (((activeTimer a e).1.target : Nat) : Int) + a.offset = nl ∧
       e.sec < (activeTimer a e).1.target ∧ a.target < (activeTimer a e).1.target ∧
       a.lastServed < (activeTimer a e).1.target ∧
       (addOff (a.base e) a.offset : Int) = (a.base e : Nat) + a.offset := by
-  obtain ⟨nl, T, d, _, heq, h1, h2, _, h4⟩ := activeTimer_spec a e hs hr hok
+  obtain ⟨nl, T, d, _, heq, h1, h2, _, h4⟩ := activeTimer_spec a e hs hr hf hok
   obtain ⟨g1, g2, g3⟩ := base_ge a e
   refine ⟨nl, h4, by rw [heq]; exact h1, by rw [heq]; simp only [armed_target]; omega, by rw [heq]; simp only [armed_target]; omega,
     by rw [heq]; simp only [armed_target]; omega, ?_⟩
@@ -93,12 +93,12 @@ monotonic clock, counted from the arming moment) is exactly the wall-clock dista
 target measured at arming: `d = 1000·(target − now_sec) − ⌊usec/1000⌋`, i.e. wall-now(ms) + d =
 target(ms).  (Holds with the 64-bit conversion of patches/C20-01.) -/
 theorem C20_delay_not_short (a : Alarm) (e : Env) (hs : a.sod < D)
-    (hr : InRange (a.base e) a.offset) (hok : (activeTimer a e).2 = true) :
+    (hr : InRange (a.base e) a.offset) (hf : FarOk a e) (hok : (activeTimer a e).2 = true) :
     ∃ d, (activeTimer a e).1.timer = some (e.monoMs + d) ∧
       e.sec < (activeTimer a e).1.target ∧
       d + e.ms = ((activeTimer a e).1.target - e.sec) * 1000 ∧
       (e.wallMs / 1000 < U32 → e.wallMs + d = (activeTimer a e).1.target * 1000) := by
-  obtain ⟨nl, T, d, _, heq, _, h2, h3, _⟩ := activeTimer_spec a e hs hr hok
+  obtain ⟨nl, T, d, _, heq, _, h2, h3, _⟩ := activeTimer_spec a e hs hr hf hok
   obtain ⟨g1, _, _⟩ := base_ge a e
   refine ⟨d, by rw [heq]; rfl, by rw [heq]; simp only [armed_target]; omega, by rw [heq]; exact h3, ?_⟩
   intro hw
@@ -118,7 +118,7 @@ ahead of the wall clock: `now < target` when the timer fires): the expiry of a w
 alarm standing for instant `a.target` either re-arms for a target strictly greater than both
 `a.target` and the current second, or (no further matching day) leaves the alarm idle with no
 timer.  Hence never two callbacks for one instant. -/
-theorem C20_targets_strictly_increase (a : Alarm) (e : Env) (hcls : a.cls ≠ .oneshot) (hs : a.sod < D)
+theorem C20_targets_strictly_increase (a : Alarm) (e : Env) (hcls : a.cls ≠ .oneshot) (hcron : a.cls ≠ .cron) (hs : a.sod < D)
     (hr : InRange (max e.sec a.target) a.offset) :
     ((expire a e).1.st = .running → a.target < (expire a e).1.target ∧ e.sec < (expire a e).1.target) ∧
     ((expire a e).1.st ≠ .running → (expire a e).1.timer = none) ∧
@@ -133,7 +133,7 @@ theorem C20_targets_strictly_increase (a : Alarm) (e : Env) (hcls : a.cls ≠ .o
           = max e.sec a.target := by unfold Alarm.base; simp only; omega
       obtain ⟨nl, T, d, _, heq, _, h2, _, _⟩ :=
         activeTimer_spec { a with timer := none, st := .inited, nFired := a.nFired + 1, lastServed := a.target } e hs
-          (by rw [hbase]; exact hr) hok
+          (by rw [hbase]; exact hr) (farOk_classic _ e hcron hs (by rw [hbase]; exact hr)) hok
       rw [heq]; rw [hbase] at h2; simp only [armed_target] at h2 ⊢; omega
     · rw [heq] at hrun; simp at hrun
   · intro hnr
@@ -143,7 +143,7 @@ theorem C20_targets_strictly_increase (a : Alarm) (e : Env) (hcls : a.cls ≠ .o
 the next enable() arms the earliest matching instant strictly after NOW, whatever target was
 pending before (`hls`: the wall clock is not behind the last instant already served — otherwise
 the base is that instant, patches/C20-07). -/
-theorem C20_enable_after_disable_earliest (a : Alarm) (e : Env) (hrun : a.st = .running) (hs : a.sod < D)
+theorem C20_enable_after_disable_earliest (a : Alarm) (e : Env) (hrun : a.st = .running) (hcron : a.cls ≠ .cron) (hs : a.sod < D)
     (hls : a.lastServed ≤ e.sec)
     (hr : InRange e.sec a.offset) (hok : (enable (disable a).1 e).2 = true) :
     ∃ nl, Earliest (Matches a e.cal) (addOff e.sec a.offset) nl ∧
@@ -155,20 +155,20 @@ theorem C20_enable_after_disable_earliest (a : Alarm) (e : Env) (hrun : a.st = .
   simp only [if_true] at hok ⊢
   generalize hb : subscribe { a with subs := if a.cls = .workday then 0 else a.subs, st := .inited, timer := none, target := 0 } = b at hok ⊢
   have hb' : b.cls = a.cls ∧ b.sod = a.sod ∧ b.mask = a.mask ∧ b.wd = a.wd ∧ b.target = 0 ∧ b.offset = a.offset ∧
-      b.lastServed = a.lastServed := by
+      b.lastServed = a.lastServed ∧ b.expr = a.expr := by
     rw [← hb]; unfold subscribe Alarm.offset; split <;> simp
-  obtain ⟨b1, b2, b3, b4, b5, b6, b7⟩ := hb'
+  obtain ⟨b1, b2, b3, b4, b5, b6, b7, b8⟩ := hb'
   have hok' : (activeTimer b e).2 = true := by
     cases h : (activeTimer b e).2 with
     | true => rfl
     | false => simp [h] at hok
   have hmax : b.base e = e.sec := by unfold Alarm.base; rw [b5, b7]; omega
   have hr' : InRange (b.base e) b.offset := by rw [hmax, b6]; exact hr
-  obtain ⟨nl, he, ht, _, _, _, _⟩ := C20_tz b e (by rw [b2]; exact hs) hr' hok'
+  obtain ⟨nl, he, ht, _, _, _, _⟩ := C20_tz b e (by rw [b2]; exact hs) hr' (farOk_classic b e (by rw [b1]; exact hcron) (by rw [b2]; exact hs) hr') hok'
   refine ⟨nl, ?_, ?_⟩
   · rw [hmax, b6] at he
     unfold Earliest Matches at he ⊢
-    rw [b1, b2, b3, b4] at he
+    rw [b1, b2, b3, b4, b8] at he
     exact he
   · simp only [hok', if_true, bump]
     rw [← b6]; exact ht
@@ -220,8 +220,9 @@ theorem C20_fired_was_enabled (c : Cls) (hist : List (Env × AOp)) :
 
 /-! ### Part 4 — worlds: several alarms, callbacks that call the API, calendar watch list, destruction.
 Every theorem quantifies over EVERY execution `wExec wInit sts = some w`: any API calls outside
-callbacks, any clock changes, any callback scripts (refresh / disable / enable of any alarm incl. the
-one whose callback runs, destruction of other alarms, calendar updates), and any order in which the
+callbacks, any clock changes, any callback scripts (refresh / disable / enable / cleanup / initialize with
+another specification / setTimezone of any alarm incl. the one whose callback runs, destruction of other
+alarms — also ones due in the same pass —, calendar updates), and any order in which the
 loop serves several due timers (`fire j` is enabled for every due timer of minimal deadline). -/
 
 /-- **no dangling watch-list entry** (patches/C20-03): every entry of the calendar's watch list is a
@@ -284,6 +285,69 @@ theorem C20_refresh_in_early_callback_counterexample :
     let e : Env := { wallMs := 86400099995, monoMs := 100000 }
     calcNext a e.cal (addOff (a.baseAsFound e) a.offset) = some a.lastServed ∧
     calcNext a e.cal (addOff (a.base e) a.offset) = some 86486500 := by decide
+
+/-- **never after disable / cleanup / destruction, also from inside callbacks**: in every reachable world
+the loop cannot serve an alarm that is not enabled (its timer is gone the moment disable(), cleanup(),
+a failing re-arm or a one-shot expiry made it idle — whoever called them, the user or a callback of the
+same pass), nor a slot whose alarm was destroyed. -/
+theorem C20_world_idle_not_served (sts : List WStep) (w : World) (he : wExec wInit sts = some w) (j : Nat) :
+    (w.get j = none → canFire w j = false) ∧
+    (∀ a, w.get j = some a → a.st ≠ .running → canFire w j = false) := by
+  have h := wExec_inv sts wInit w wInit_inv he
+  refine ⟨fun hn => by unfold canFire; rw [hn], ?_⟩
+  intro a hg hst
+  have ht := (h.alarms j a hg).inv.idle hst
+  unfold canFire; rw [hg]; simp only [ht]
+
+/-- **a wall-clock step between arming and firing is not seen by the armed timer**: whether the loop may
+serve an alarm depends on the monotonic clock only, and the instant the expiry stands for is the target
+fixed at arming — whatever the wall clock says now (the delay was fixed at arming, `C20_delay_not_short`;
+only refresh() / disable()+enable() re-base on the new wall time, `C20_refresh_rebases_on_now`). -/
+theorem C20_wall_step_not_seen_until_refresh (w : World) (j v : Nat) (a : Alarm) (e e' : Env) :
+    canFire { w with wallMs := v } j = canFire w j ∧ (expire a e).2.1 = a.target ∧ (expire a e').2.1 = a.target :=
+  ⟨rfl, by rw [expire_served], by rw [expire_served]⟩
+
+/-- **refresh() re-bases on the current wall time**: for a running alarm (the wall clock not behind the
+last served instant) refresh() arms the earliest matching local instant strictly after NOW — however
+the wall clock was stepped since the alarm was armed. -/
+theorem C20_refresh_rebases_on_now (a : Alarm) (e : Env) (hrun : a.st = .running) (hs : a.sod < D)
+    (hls : a.lastServed ≤ e.sec) (hr : InRange e.sec a.offset)
+    (hf : FarOk { a with st := .inited, timer := none, target := 0 } e)
+    (hok : (refresh a e).st = .running) :
+    ∃ nl, Earliest (Matches a e.cal) (addOff e.sec a.offset) nl ∧ (((refresh a e).target : Nat) : Int) + a.offset = nl := by
+  have hb : Alarm.base { a with st := .inited, timer := none, target := 0 } e = e.sec := by
+    unfold Alarm.base; simp only; omega
+  have href : refresh a e = (activeTimer { a with st := .inited, timer := none, target := 0 } e).1 := by
+    unfold refresh; simp [hrun]
+  rw [href] at hok ⊢
+  have hok' : (activeTimer { a with st := .inited, timer := none, target := 0 } e).2 = true := by
+    rcases activeTimer_cases { a with st := .inited, timer := none, target := 0 } e with ⟨h1, _, _⟩ | ⟨_, h2⟩
+    · exact h1
+    · rw [h2] at hok; simp at hok
+  obtain ⟨nl, h1, h2, _⟩ := C20_tz { a with st := .inited, timer := none, target := 0 } e hs (by rw [hb]; exact hr) hf hok'
+  rw [hb] at h1
+  exact ⟨nl, h1, h2⟩
+
+/-- **no next instant ⇒ idle, not armed for a fake instant**: when the computation reports failure at an
+expiry (workday calendar with all days off, cron expression beyond ccronexpr's year horizon — patches/C20-08)
+the alarm is left initialised and idle with no timer; it neither spins nor claims a next instant. -/
+theorem C20_expiry_without_next_instant_goes_idle (a : Alarm) (e : Env)
+    (hn : calcNext a e.cal (addOff (max e.sec a.target) a.offset) = none) (hcls : a.cls ≠ .oneshot) :
+    (expire a e).1.st = .inited ∧ (expire a e).1.timer = none := by
+  have hbase : Alarm.base { a with timer := none, st := .inited, nFired := a.nFired + 1, lastServed := a.target } e
+      = max e.sec a.target := by unfold Alarm.base; simp only; omega
+  have hex : (expire a e).1 = (activeTimer { a with timer := none, st := .inited, nFired := a.nFired + 1, lastServed := a.target } e).1 := by
+    unfold expire; cases hc : a.cls <;> simp_all
+  rw [hex, activeTimer_of_none _ e (by rw [hbase]; exact hn)]
+  exact ⟨rfl, rfl⟩
+
+/-- **a rejected re-initialisation changes nothing** (patches/C20-10): CronAlarm::initialize with an
+expression the parser rejects leaves the stored expression, the state and everything else as they were. -/
+theorem C20_cron_reinit_rejected_keeps_expression (a : Alarm) : initCron a none = (a, false) := by
+  unfold initCron
+  by_cases h1 : a.cls ≠ .cron
+  · simp [h1]
+  · by_cases h2 : a.st = .running <;> simp [h1, h2]
 
 /-! ### Part 5 — cron (reference semantics; ccronexpr itself is tied by correspondence only) -/
 
